@@ -2720,6 +2720,9 @@ class Generic_Binding(StmtBase):
         # Return optional access specifier (PRIVATE or PUBLIC)
         if line.startswith(","):
             aspec = Access_Spec(line[1:i].strip())
+        elif line[:i].strip():
+            # Unexpected text between GENERIC and the double colon
+            return
         line = line[i + 2 :].lstrip()
         i = line.find("=>")
         if i == -1:
